@@ -9,8 +9,10 @@
 package main
 
 import (
+	"bufio"
 	"bytes"
 	"fmt"
+	"github.com/emersion/go-imap/v2/internal/imapwire"
 	"math/rand"
 	"strings"
 	"time"
@@ -61,7 +63,11 @@ func stream(dec bool, in string, srcChunk, dstSize int) (r res, panicMsg string,
 		} else {
 			t = utf7.Encoding.NewEncoder()
 		}
-		t.Reset()
+		// a transformer fresh from NewDecoder/NewEncoder is in its initial state: half of the runs use it
+		// as it comes, the other half call Reset first
+		if (srcChunk+dstSize)%2 == 0 {
+			t.Reset()
+		}
 		var out []byte
 		var pending []byte
 		rest := []byte(in)
@@ -307,6 +313,10 @@ func body(w *hx.W) {
 	for i := 0; i < n; i++ {
 		s := randUTF8(rng, 1+rng.Intn(40))
 		c.checkEncode(s)
+		if i%4 == 0 {
+			c.wireMailbox(s)
+			w.Class("wire-mailbox")
+		}
 		w.CaseStr("enc:" + s)
 		w.Class("encoder/random")
 		enc := utf7ref.Encode(s)
@@ -332,6 +342,12 @@ func body(w *hx.W) {
 	if w.Shard < 4 {
 		c.history(rng, w.Pick(1500, 20000))
 		w.CaseStr(fmt.Sprintf("history/%d", w.Shard))
+	}
+	for i, nme := range []string{"&", "a&b", "R&D", "Q&-A", "&AOk-", "Tom & Jerry", "ctl\x01\x7f", "日本語/メール", "INBOX", "inbox", "with space \"q\" \\", "é", "𝄞clef", "a-b&-"} {
+		if w.Mine(i) {
+			c.wireMailbox(nme)
+			w.CaseStr("wire:" + nme)
+		}
 	}
 	// 4. targeted chunked cases: tokens that do not fit small buffers and state carried across calls
 	for i, s := range []string{"&AGE-&Jjo-", "a&Jjo-&Jjo-", "&Jjo-a&Jjo-", "ab&-&AAA-&-", "&U,BTF2XlZyyKng-x", "&2D3eCg-&-&2D3eCw-", "x&AAAAHwB,AIA-&AAA-", "&AAA-&AAA-&AAA-", "&-&-&-&-", "&Jjo--&Jjo-"} {
@@ -383,6 +399,50 @@ func (c *checker) history(rng *rand.Rand, n int) {
 	pass(rev)
 	c.w.Metric("history_names", int64(n))
 	c.w.Class("history")
+}
+
+// wireMailbox: the call sites through which mailbox names actually travel. Whatever the negotiated
+// string mode (UTF-8 quoting on or off, literals or not), Encoder.Mailbox must put the RFC 3501
+// modified UTF-7 form of the name on the wire (printable ASCII, judged by the reference codec) and
+// Decoder.ExpectMailbox must give the name back.
+func (c *checker) wireMailbox(name string) {
+	for _, client := range []bool{true, false} {
+		for _, utf8q := range []bool{false, true} {
+			var buf bytes.Buffer
+			side, peer := imapwire.ConnSideServer, imapwire.ConnSideClient
+			if client {
+				side, peer = imapwire.ConnSideClient, imapwire.ConnSideServer
+			}
+			e := imapwire.NewEncoder(bufio.NewWriter(&buf), side)
+			e.QuotedUTF8, e.LiteralMinus, e.LiteralPlus = utf8q, true, client
+			e.Mailbox(name).SP().Atom("END")
+			if err := e.CRLF(); err != nil {
+				c.viol("wire-mailbox-refused", name, err.Error())
+				continue
+			}
+			mode := fmt.Sprintf("client=%v quotedUTF8=%v", client, utf8q)
+			wire := buf.Bytes()
+			for _, b := range wire {
+				if b >= 0x80 {
+					c.viol("wire-mailbox-not-ascii", name, fmt.Sprintf("[%s] Encoder.Mailbox wrote 8-bit bytes: %s", mode, short(string(wire))))
+					break
+				}
+			}
+			d := imapwire.NewDecoder(bufio.NewReader(bytes.NewReader(wire)), peer)
+			var got, end string
+			if !d.ExpectMailbox(&got) || !d.ExpectSP() || !d.ExpectAtom(&end) || end != "END" {
+				c.viol("wire-mailbox-rejected", name, fmt.Sprintf("[%s] Decoder.ExpectMailbox cannot read what Encoder.Mailbox wrote (%s): %v", mode, short(string(wire)), d.Err()))
+				continue
+			}
+			want := name
+			if strings.EqualFold(name, "INBOX") {
+				want = "INBOX"
+			}
+			if got != want {
+				c.viol("wire-mailbox-roundtrip", name, fmt.Sprintf("[%s] wire %s decodes to %s", mode, short(string(wire)), short(got)))
+			}
+		}
+	}
 }
 
 func randUTF8(rng *rand.Rand, n int) string {
@@ -444,6 +504,7 @@ func main() {
 			"reference codec internal/ref/utf7ref written from RFC 3501 §5.1.3; inputs whose only flaw is non-zero discarded base64 bits are 'unspecified' (accept or reject both admissible, but an accepted output must be the reference output)",
 			"the streaming driver grows the destination only when a Transform call made no progress (nDst=nSrc=0) with ErrShortDst",
 			"invalid UTF-8 given to the encoder is outside the property",
+			"at the wire call sites (imapwire Encoder.Mailbox / Decoder.ExpectMailbox) mailbox names travel in modified UTF-7 in every string mode, as go-imap does today",
 		},
 		WallQuick: 20 * time.Minute, WallThorough: 120 * time.Minute,
 	}, body)
